@@ -88,9 +88,9 @@ func (f *Do) Call(s *slip.Scope, args slip.List, depth int) (result slip.Object)
 					if tr.Tag == nil {
 						return tr.Result
 					}
-					if s.Block {
-						return tr
-					}
+					// A return from an enclosing named block, however many forms
+					// are in between.
+					return tr
 				case *GoTo:
 					for i++; i < len(args); i++ {
 						if args[i] == tr.Tag {
